@@ -20,6 +20,7 @@ echo "--- demo WITH change (must fail):"; go test -vet=off -count=1 -run 'Seed|s
 git apply -R $OUT/patch.diff
 echo "--- demo WITHOUT change (must pass):"; go test -vet=off -count=1 -run 'Seed|seed' ./$pkgdir/ 2>&1 | tail -3
 cd /verif; git -C /repo worktree remove --force $V
+[ -n "${NOAPPLY:-}" ] && exit 0   # confirmation only (checks are run separately, e.g. tools/seedtry.sh)
 echo "--- applying to /repo and running checks: $CHECKS"
 git -C /repo apply $OUT/patch.diff || exit 3
 for c in $CHECKS; do ./check $c --tier quick 2>&1 | grep "^PASS\|^FAIL\|^CHECK-BROKEN\|^VIOLATION\|fingerprint=" | cut -c1-220 | head -12; done
